@@ -920,16 +920,25 @@ impl ErrorSet {
     style: ErrorPrinterStyle,
     sources: &HashMap<ModuleReference, String>,
   ) -> String {
-    if self.errors.is_empty() {
+    Self::error_messages_of(self.errors.iter().collect(), heap, style, sources)
+  }
+
+  fn error_messages_of(
+    errors: Vec<&CompileTimeError>,
+    heap: &Heap,
+    style: ErrorPrinterStyle,
+    sources: &HashMap<ModuleReference, String>,
+  ) -> String {
+    if errors.is_empty() {
       return "".to_string();
     }
     let mut printer = printer::ErrorPrinterState::new(style, sources);
-    for e in &self.errors {
+    for e in &errors {
       Self::print_one_error_message(heap, &mut printer, e);
     }
-    if self.errors.len() > 1 {
+    if errors.len() > 1 {
       printer.push_str("Found ");
-      printer.push_str(&self.errors.len().to_string());
+      printer.push_str(&errors.len().to_string());
       printer.push_str(" errors.");
     } else {
       printer.push_str("Found 1 error.");
@@ -943,6 +952,20 @@ impl ErrorSet {
     sources: &HashMap<ModuleReference, String>,
   ) -> String {
     self.error_messages(heap, ErrorPrinterStyle::Text, sources)
+  }
+
+  /// The same report with the modules in module-name order. The set itself orders errors by
+  /// module reference, i.e. by the order in which the caller happened to allocate the modules
+  /// (directory enumeration order); the report of a compilation should only depend on the sources.
+  /// The order of the errors inside one module is unchanged.
+  pub fn pretty_print_error_messages_in_module_name_order(
+    &self,
+    heap: &Heap,
+    sources: &HashMap<ModuleReference, String>,
+  ) -> String {
+    let mut errors = self.errors.iter().collect::<Vec<_>>();
+    errors.sort_by_cached_key(|e| e.location.module_reference.pretty_print(heap));
+    Self::error_messages_of(errors, heap, ErrorPrinterStyle::Text, sources)
   }
 
   pub fn pretty_print_from_grouped_error_messages_for_tests(
